@@ -312,9 +312,10 @@ func inCycle(b *ssa.BasicBlock) bool {
 	return false
 }
 
-func runRecordRules(c *Ctx) {
+func runRecordRules(c *Ctx) { runRecordRulesAs(c, "C13") }
+
+func runRecordRulesAs(c *Ctx, P string) {
 	p := c.P
-	const P = "C13"
 	rr := p.Fn("(*RecordMarkingReader).ReadRecord")
 	if rr == nil {
 		c.undecided(P, "record", "fn=ReadRecord", "", "not found")
@@ -498,6 +499,11 @@ func runC15(c *Ctx) {
 	c.rule(P, "recover", "the per-connection goroutine defers a recover before serving", 1)
 	c.rule(P, "hazards", "explicit panic hazards (panic calls, single-result type assertions) reachable from goroutines without recover are in the reviewed table", 3)
 	runAllocRule(c, P, nil)
+	c.rule(P, "record", "ReadRecord: size test on the returned buffer's own length; no Reset in the fragment loop; completes only on a last-fragment header (shared with C13)", 3)
+	savedOnly := c.Only
+	c.Only = map[string]bool{"record": true}
+	runRecordRulesAs(c, P)
+	c.Only = savedOnly
 
 	ent, err := p.entrySet()
 	if err != nil {
